@@ -10,7 +10,9 @@
 #include <asmjit/x86.h>
 #include <asmjit/a64.h>
 #include "vh.h"
+#include <asmjit/x86/x86compiler.h>
 #include <signal.h>
+#include <string.h>
 #include <unistd.h>
 
 using namespace asmjit;
@@ -208,12 +210,301 @@ static std::string do_sh(const std::vector<std::string>& w) {
   return head + " | " + insts;
 }
 
+
+// ------------------------------------------------------------------------------------------------------------------
+// invoke lowering (x86::Compiler, RACFGBuilder::on_before_invoke and its move_* helpers + the frame's call-stack fields)
+//   iv <env> <ccid> <flags> <n> <tid>=<op>*n
+//     env: x86l x86w x64l x64w (the caller is a `void f(void)` cdecl function of that environment), ccid: the callee's convention
+//     flags: bit0 a 16-byte local (`new_stack`) holding 4 marker dwords 0x5A5A5A50+k written before the arguments are built,
+//            bit1 avx, bit2 avx512
+//     op: i<hex>      immediate (64-bit two's complement)
+//         r<srctid>   a fresh GP virtual register of that type, initialised with `mov reg, 0x8877665544332211 * (k+1)` (truncated)
+//         v<srctid>   a fresh vector virtual register of that type, loaded from the magic address 0x7E0000000000 + 64*k
+//                     (x86-32: 0x7E000000 + 64*k)
+//   answer: ok ass=<invoke arg_stack_size> css=<call_stack_size> csa=<call_stack_alignment> lso=<local_stack_offset>
+//              lss=<local_stack_size> fss=<final_stack_size> da=<0|1> | <inst>;...   the final (post-RA) instructions from the
+//           marker `nop` to the `call` (and what follows it up to the next marker); operands r<regtype>.<id> m<base>.<off>.<size>
+//           i<hex>; instructions the harness emitted itself (initialisation) carry the prefix '#'
+// ------------------------------------------------------------------------------------------------------------------
+static std::string iv_op_str(const Operand_& o) {
+  if (o.is_imm()) return "i" + vh::to_hex(uint64_t(o.as<Imm>().value()));
+  if (o.is_mem()) {
+    const BaseMem& m = o.as<BaseMem>();
+    if (m.has_index() || !m.has_base_reg()) return "m?";
+    return "m" + std::to_string(m.base_id()) + "." + std::to_string(m.offset_lo32()) + "." + std::to_string(o.signature().size());
+  }
+  return op_str(o);
+}
+
+static std::string do_iv(const std::vector<std::string>& w) {
+  Environment env; uint64_t ccid, flags, n;
+  if (w.size() < 5 || !parse_env(w[1], env) || !env.is_family_x86() || !vh::parse_u64(w[2], ccid) || !vh::parse_hex(w[3], flags) ||
+      !vh::parse_u64(w[4], n) || ccid > 255 || n > 32 || w.size() != 5 + n) return "bad-op";
+  bool is64 = env.is_64bit();
+  CodeHolder code;
+  code.init(env);
+  x86::Compiler cc(&code);
+  FuncNode* fn = nullptr;
+  FuncSignature fsig(CallConvId::kCDecl);
+  fsig.set_ret(TypeId::kVoid);
+  Error e = cc.add_func_node(Out<FuncNode*>(fn), fsig);
+  if (e != Error::kOk) return "func-" + err_name(e);
+  if (flags & 2) fn->frame().set_avx_enabled();
+  if (flags & 4) fn->frame().set_avx512_enabled();
+  cc.emit(x86::Inst::kIdNop);
+  x86::Mem loc;
+  if (flags & 1) {
+    loc = cc.new_stack(16, 16);
+    for (int k = 0; k < 4; k++) { x86::Mem m = loc; m.add_offset(4 * k); m.set_size(4); cc.emit(x86::Inst::kIdMov, m, Imm(0x5A5A5A50 + k)); cc.cursor()->set_user_data_as_uint64(7); }
+  }
+  FuncSignature sig{CallConvId(ccid)};
+  sig.set_ret(TypeId::kVoid);
+  std::vector<Operand> ops;
+  std::vector<uint32_t> split;   // x86-32: 64-bit integer immediates are passed as two halves (value_index 0 / 1), as a user has to
+  for (uint64_t i = 0; i < n; i++) {
+    const std::string& a = w[5 + i];
+    size_t eq = a.find('=');
+    uint64_t tid;
+    if (eq == std::string::npos || eq + 2 > a.size() || !vh::parse_u64(a.substr(0, eq), tid) || tid > 255) return "bad-op";
+    sig.add_arg(TypeId(tid));
+    char k = a[eq + 1];
+    std::string rest = a.substr(eq + 2);
+    if (k == 'i') {
+      uint64_t v;
+      if (!vh::parse_hex(rest, v)) return "bad-op";
+      ops.push_back(Imm(int64_t(v)));
+      if (!is64 && TypeUtils::size_of(TypeId(tid)) == 8 && TypeUtils::is_int(TypeId(tid))) split.push_back(uint32_t(i));
+    }
+    else if (k == 'r' || k == 'v') {
+      uint64_t st;
+      if (!vh::parse_u64(rest, st) || st > 255) return "bad-op";
+      Reg r;
+      e = cc._new_reg(Out<Reg>(r), TypeId(st), nullptr);
+      if (e != Error::kOk) return "newreg-" + err_name(e);
+      if (k == 'r') {
+        if (!r.is_gp()) return "bad-op";
+        uint64_t val = 0x8877665544332211ull * (i + 1);
+        uint32_t sz = r.size();
+        if (sz < 8) val &= (uint64_t(1) << (sz * 8)) - 1;
+        e = cc.emit(x86::Inst::kIdMov, r, Imm(int64_t(val)));
+        cc.cursor()->set_user_data_as_uint64(7);
+      }
+      else {
+        if (!r.is_vec()) return "bad-op";
+        x86::Gp t = is64 ? cc.new_gp64() : cc.new_gp32();
+        uint64_t addr = (is64 ? 0x7E0000000000ull : 0x7E000000ull) + 64 * i;
+        cc.emit(x86::Inst::kIdMov, t, Imm(int64_t(addr)));
+        cc.cursor()->set_user_data_as_uint64(7);
+        e = cc.emit(r.size() > 16 ? x86::Inst::kIdVmovups : x86::Inst::kIdMovups, r, x86::ptr(t));
+        cc.cursor()->set_user_data_as_uint64(7);
+      }
+      if (e != Error::kOk) return "init-" + err_name(e);
+      ops.push_back(r);
+    }
+    else return "bad-op";
+  }
+  InvokeNode* inv = nullptr;
+  e = cc.add_invoke_node(Out<InvokeNode*>(inv), x86::Inst::kIdCall, Imm(uint64_t(0x10000)), sig);
+  if (e != Error::kOk) return "invoke-" + err_name(e);
+  for (uint64_t i = 0; i < n; i++) {
+    if (ops[i].is_imm()) inv->set_arg(uint32_t(i), ops[i].as<Imm>()); else inv->set_arg(uint32_t(i), ops[i].as<Reg>());
+  }
+  for (uint32_t i : split) {
+    uint64_t v = uint64_t(ops[i].as<Imm>().value());
+    inv->set_arg(i, 0, Imm(int64_t(v & 0xFFFFFFFFu)));
+    inv->set_arg(i, 1, Imm(int64_t(v >> 32)));
+  }
+  cc.emit(x86::Inst::kIdNop);
+  if (flags & 1) { x86::Gp t = cc.new_gp32(); x86::Mem m = loc; m.set_size(4); cc.emit(x86::Inst::kIdMov, t, m); }
+  cc.end_func();
+  e = cc.finalize();
+  if (e != Error::kOk) return "fin-" + err_name(e);
+  const FuncFrame& fr = fn->frame();
+  std::string head = "ok ass=" + std::to_string(inv->detail().arg_stack_size()) + " css=" + std::to_string(fr.call_stack_size()) +
+    " csa=" + std::to_string(fr.call_stack_alignment()) + " lso=" + std::to_string(fr.local_stack_offset()) +
+    " lss=" + std::to_string(fr.local_stack_size()) + " fss=" + std::to_string(fr.final_stack_size()) +
+    " da=" + std::to_string(fr.has_dynamic_alignment() ? 1 : 0);
+  std::string insts;
+  int markers = 0;
+  for (BaseNode* node = cc.first_node(); node && markers < 2; node = node->next()) {
+    if (!node->is_inst() && node->type() != NodeType::kInvoke) continue;
+    InstNode* in = node->as<InstNode>();
+    if (in->inst_id() == x86::Inst::kIdNop) { markers++; continue; }
+    if (!markers) continue;
+    String nm;
+    InstAPI::inst_id_to_string(env.arch(), in->inst_id(), InstStringifyOptions::kNone, nm);
+    if (!insts.empty()) insts += ";";
+    if (in->user_data_as_uint64() == 7) insts += "#";
+    insts += nm.data();
+    for (uint32_t k = 0; k < in->op_count(); k++) insts += " " + iv_op_str(in->op(k));
+  }
+  return head + " | " + insts;
+}
+
+// ------------------------------------------------------------------------------------------------------------------
+// invoke lowering, executed on the host (x86-64 SysV caller; SysV or Microsoft x64 callee)
+//   ivx <ccid> <flags> <n> <tid>=<op>*n        ccid 32 (SysV) | 33 (Win64); flags bit1 avx
+//     the JIT function is `void f(void)`; the callee is a stub that captures every argument register, the stack-argument area and
+//     (through the FuncDetail) the pointees of by-reference arguments.  op as in `iv`; vector registers are loaded from a real
+//     buffer whose byte j of vector k is (17 * k + j + 1) & 0xFF.
+//   answer: ok <arg>*n   with arg = g<hex64> (GP register or 8-byte stack slot) | b<hex bytes> (vector register / stack vector /
+//           pointee of a by-reference argument)
+// ------------------------------------------------------------------------------------------------------------------
+#if defined(__x86_64__) && defined(__linux__)
+extern "C" {
+struct IvxCap { uint64_t gp[6]; uint8_t xmm[8][16]; uint64_t stack[32]; };
+IvxCap ivx_cap;
+static const FuncDetail* ivx_fd;
+static uint8_t ivx_ind[32][64];
+uint8_t ivx_vecs[32][64];
+
+void ivx_capture_more() {
+  // pointees of by-reference arguments (the temporaries live in the caller's frame: copy them while the call is in progress)
+  const FuncDetail& fd = *ivx_fd;
+  static const uint8_t sysv_gp[6] = {7, 6, 2, 1, 8, 9};
+  for (uint32_t i = 0; i < fd.arg_count(); i++) {
+    const FuncValue& v = fd.arg(i);
+    if (!v.is_indirect()) continue;
+    uint64_t p = 0;
+    if (v.is_reg()) { for (int k = 0; k < 6; k++) if (sysv_gp[k] == v.reg_id()) p = ivx_cap.gp[k]; }
+    else p = ivx_cap.stack[uint32_t(v.stack_offset()) / 8];
+    memcpy(ivx_ind[i], reinterpret_cast<const void*>(uintptr_t(p)), 64 <= TypeUtils::size_of(v.type_id()) ? 64 : TypeUtils::size_of(v.type_id()));
+  }
+}
+
+// captures rdi rsi rdx rcx r8 r9, xmm0-7 and 32 qwords of stack arguments; preserves everything a Microsoft x64 callee must preserve
+__attribute__((naked)) void ivx_stub() {
+  __asm__ volatile(
+    "leaq ivx_cap(%rip), %rax\n"
+    "movq %rdi, 0(%rax)\n movq %rsi, 8(%rax)\n movq %rdx, 16(%rax)\n movq %rcx, 24(%rax)\n movq %r8, 32(%rax)\n movq %r9, 40(%rax)\n"
+    "movups %xmm0, 48(%rax)\n movups %xmm1, 64(%rax)\n movups %xmm2, 80(%rax)\n movups %xmm3, 96(%rax)\n"
+    "movups %xmm4, 112(%rax)\n movups %xmm5, 128(%rax)\n movups %xmm6, 144(%rax)\n movups %xmm7, 160(%rax)\n"
+    "xorl %ecx, %ecx\n"
+    "1: movq 8(%rsp,%rcx,8), %rdx\n movq %rdx, 176(%rax,%rcx,8)\n incl %ecx\n cmpl $32, %ecx\n jne 1b\n"
+    "pushq %rbp\n movq %rsp, %rbp\n andq $-16, %rsp\n subq $192, %rsp\n"
+    "movq %rdi, 0(%rsp)\n movq %rsi, 8(%rsp)\n"
+    "movups %xmm6, 16(%rsp)\n movups %xmm7, 32(%rsp)\n movups %xmm8, 48(%rsp)\n movups %xmm9, 64(%rsp)\n movups %xmm10, 80(%rsp)\n"
+    "movups %xmm11, 96(%rsp)\n movups %xmm12, 112(%rsp)\n movups %xmm13, 128(%rsp)\n movups %xmm14, 144(%rsp)\n movups %xmm15, 160(%rsp)\n"
+    "call ivx_capture_more\n"
+    "movq 0(%rsp), %rdi\n movq 8(%rsp), %rsi\n"
+    "movups 16(%rsp), %xmm6\n movups 32(%rsp), %xmm7\n movups 48(%rsp), %xmm8\n movups 64(%rsp), %xmm9\n movups 80(%rsp), %xmm10\n"
+    "movups 96(%rsp), %xmm11\n movups 112(%rsp), %xmm12\n movups 128(%rsp), %xmm13\n movups 144(%rsp), %xmm14\n movups 160(%rsp), %xmm15\n"
+    "movq %rbp, %rsp\n popq %rbp\n ret\n");
+}
+}
+
+static std::string do_ivx(const std::vector<std::string>& w) {
+  uint64_t ccid, flags, n;
+  if (w.size() < 4 || !vh::parse_u64(w[1], ccid) || !vh::parse_hex(w[2], flags) || !vh::parse_u64(w[3], n) ||
+      (ccid != 32 && ccid != 33) || n > 16 || w.size() != 4 + n) return "bad-op";
+  Environment env(Arch::kX64, SubArch::kUnknown, Vendor::kUnknown, Platform::kLinux, PlatformABI::kGNU);
+  JitRuntime rt;
+  CodeHolder code;
+  code.init(rt.environment(), rt.cpu_features());
+  x86::Compiler cc(&code);
+  FuncNode* fn = nullptr;
+  FuncSignature fsig(CallConvId::kCDecl);
+  fsig.set_ret(TypeId::kVoid);
+  Error e = cc.add_func_node(Out<FuncNode*>(fn), fsig);
+  if (e != Error::kOk) return "func-" + err_name(e);
+  if (flags & 2) fn->frame().set_avx_enabled();
+  FuncSignature sig{CallConvId(ccid)};
+  sig.set_ret(TypeId::kVoid);
+  std::vector<Operand> ops;
+  for (uint64_t i = 0; i < n; i++) {
+    const std::string& a = w[4 + i];
+    size_t eq = a.find('=');
+    uint64_t tid;
+    if (eq == std::string::npos || eq + 2 > a.size() || !vh::parse_u64(a.substr(0, eq), tid) || tid > 255) return "bad-op";
+    sig.add_arg(TypeId(tid));
+    char k = a[eq + 1];
+    std::string rest = a.substr(eq + 2);
+    if (k == 'i') {
+      uint64_t v;
+      if (!vh::parse_hex(rest, v)) return "bad-op";
+      ops.push_back(Imm(int64_t(v)));
+    }
+    else if (k == 'r' || k == 'v') {
+      uint64_t st;
+      if (!vh::parse_u64(rest, st) || st > 255) return "bad-op";
+      Reg r;
+      e = cc._new_reg(Out<Reg>(r), TypeId(st), nullptr);
+      if (e != Error::kOk) return "newreg-" + err_name(e);
+      if (k == 'r') {
+        if (!r.is_gp()) return "bad-op";
+        uint64_t val = 0x8877665544332211ull * (i + 1);
+        uint32_t sz = r.size();
+        if (sz < 8) val &= (uint64_t(1) << (sz * 8)) - 1;
+        e = cc.emit(x86::Inst::kIdMov, r, Imm(int64_t(val)));
+      }
+      else {
+        if (!r.is_vec() || r.size() > 32 || (r.size() > 16 && !(flags & 2))) return "bad-op";
+        for (int j = 0; j < 64; j++) ivx_vecs[i][j] = uint8_t(17 * i + j + 1);
+        x86::Gp t = cc.new_gp64();
+        cc.emit(x86::Inst::kIdMov, t, Imm(int64_t(uintptr_t(ivx_vecs[i]))));
+        e = cc.emit(r.size() > 16 ? x86::Inst::kIdVmovups : x86::Inst::kIdMovups, r, x86::ptr(t));
+      }
+      if (e != Error::kOk) return "init-" + err_name(e);
+      ops.push_back(r);
+    }
+    else return "bad-op";
+  }
+  InvokeNode* inv = nullptr;
+  e = cc.add_invoke_node(Out<InvokeNode*>(inv), x86::Inst::kIdCall, Imm(uint64_t(uintptr_t(&ivx_stub))), sig);
+  if (e != Error::kOk) return "invoke-" + err_name(e);
+  for (uint64_t i = 0; i < n; i++) {
+    if (ops[i].is_imm()) inv->set_arg(uint32_t(i), ops[i].as<Imm>()); else inv->set_arg(uint32_t(i), ops[i].as<Reg>());
+  }
+  cc.end_func();
+  e = cc.finalize();
+  if (e != Error::kOk) return "fin-" + err_name(e);
+  void (*f)() = nullptr;
+  e = rt.add(&f, &code);
+  if (e != Error::kOk) return "jit-" + err_name(e);
+  memset(&ivx_cap, 0xCC, sizeof(ivx_cap));
+  memset(ivx_ind, 0xCC, sizeof(ivx_ind));
+  ivx_fd = &inv->detail();
+  f();
+  static const uint8_t sysv_gp[6] = {7, 6, 2, 1, 8, 9};
+  const FuncDetail& fd = inv->detail();
+  std::string out = "ok";
+  for (uint32_t i = 0; i < fd.arg_count(); i++) {
+    const FuncValue& v = fd.arg(i);
+    uint32_t sz = TypeUtils::size_of(v.type_id());
+    out += " ";
+    if (v.is_indirect()) out += "b" + vh::bytes_to_hex(ivx_ind[i], sz > 64 ? 64 : sz);
+    else if (v.is_reg()) {
+      if (RegUtils::group_of(v.reg_type()) == RegGroup::kGp) {
+        uint64_t g = 0xDEADDEADDEADDEADull;
+        for (int k = 0; k < 6; k++) if (sysv_gp[k] == v.reg_id()) g = ivx_cap.gp[k];
+        out += "g" + vh::to_hex(g);
+      }
+      else if (RegUtils::group_of(v.reg_type()) == RegGroup::kVec && v.reg_id() < 8) out += "b" + vh::bytes_to_hex(ivx_cap.xmm[v.reg_id()], sz > 16 ? 16 : sz);
+      else out += "?";
+    }
+    else if (v.is_stack()) {
+      uint32_t off = uint32_t(v.stack_offset());
+      if (off + (sz < 8 ? 8 : sz) > sizeof(ivx_cap.stack)) out += "?";
+      else if (TypeUtils::is_int(v.type_id())) out += "g" + vh::to_hex(ivx_cap.stack[off / 8]);
+      else out += "b" + vh::bytes_to_hex(reinterpret_cast<const uint8_t*>(ivx_cap.stack) + off, sz);
+    }
+    else out += "?";
+  }
+  rt.release(f);
+  return out;
+}
+#else
+static std::string do_ivx(const std::vector<std::string>&) { return "unsupported-host"; }
+#endif
+
 static std::string step(const std::string& line) {
   std::vector<std::string> w = vh::words(line);
   if (w.empty()) return "bad-op";
   if (w[0] == "cc") return do_cc(w);
   if (w[0] == "fd") return do_fd(w);
   if (w[0] == "sh") return do_sh(w);
+  if (w[0] == "iv") return do_iv(w);
+  if (w[0] == "ivx") return do_ivx(w);
   return "bad-op";
 }
 
